@@ -7,7 +7,8 @@ TMP = [None]
 _sp = {}
 DAY = 86400
 BOUNDS = ('C_NB', 'C_NOOA', 'SCD_NOOA', 'SCD_NB', 'SESS')
-KIND = {'C_NB': 'NB', 'SCD_NB': 'NB', 'C_NOOA': 'NOOA', 'SCD_NOOA': 'NOOA', 'SESS': 'NOOA', 'SCD2_NOOA': 'NOOA', 'SCD2_NB': 'NB'}
+KIND = {'C_NB': 'NB', 'SCD_NB': 'NB', 'C_NOOA': 'NOOA', 'SCD_NOOA': 'NOOA', 'SESS': 'NOOA', 'SCD2_NOOA': 'NOOA', 'SCD2_NB': 'NB',
+        'SESS2': 'NOOA', 'SESS3': 'NOOA'}
 BASE_OFF = {'C_NB': -60, 'C_NOOA': 300, 'SCD_NOOA': 400, 'SCD_NB': -50, 'SESS': 500}
 
 
@@ -41,14 +42,22 @@ def shapes(thorough):
     out.append(('two-scd:usable+expiring-earlier', {'SCD_NOOA': 400, 'SCD2_NOOA': 200, 'C_NOOA': 600}))
     out.append(('two-scd:expiring-earlier+usable', {'SCD_NOOA': 400, 'SCD2_NOOA': 200, 'C_NOOA': 600, '_scd2_first': True}))
     out.append(('two-scd:usable+not-yet', {'SCD_NOOA': 400, 'SCD2_NOOA': 400, 'SCD2_NB': 100, 'C_NOOA': 600}))
+    # several AuthnStatements: a session bound on a later statement counts as well
+    out.append(('two-authn:second-expiring-earlier', {'C_NOOA': 600, 'SCD_NOOA': 600, 'SESS': 500, 'SESS2': 200}))
+    out.append(('two-authn:only-second-bounded', {'C_NOOA': 600, 'SCD_NOOA': 600, 'SESS2': 200}))
+    out.append(('three-authn:third-expiring-earlier', {'C_NOOA': 600, 'SCD_NOOA': 600, 'SESS': 500, 'SESS2': 400, 'SESS3': 200}))
     out.append(('inv-conditions', {'C_NB': 10, 'C_NOOA': 0, 'SCD_NOOA': 400}))
     out.append(('inv-scd', {'SCD_NB': 10, 'SCD_NOOA': 0, 'C_NOOA': 400}))
     return out
 
 
-SPELLINGS_Q = ('Z', '.999Z', '+01:00')
-SPELLINGS_T = ('Z', '.000Z', '.999Z', 'none', '+00:00', '+01:00')
-FRAC = {'Z': 0.0, '.000Z': 0.0, '.999Z': 0.999, 'none': 0.0, '+00:00': 0.0, '+01:00': 0.0}
+SPELLINGS_Q = ('Z', '.999Z', '+01:00', '-03:30')
+SPELLINGS_T = ('Z', '.000Z', '.999Z', 'none', '+00:00', '+01:00', '-03:30', '+05:30', '-00:30', '+13:00')
+FRAC = {'Z': 0.0, '.000Z': 0.0, '.999Z': 0.999, 'none': 0.0, '+00:00': 0.0, '+01:00': 0.0, '-03:30': 0.0, '+05:30': 0.0, '-00:30': 0.0,
+        '+13:00': 0.0}
+# process time zones (POSIX TZ strings; the sign is inverted: VPA-5 is UTC+5): SAML instants are UTC whatever the zone
+ZONES_Q = ('UTC', 'VPA-5', 'VPB5')
+ZONES_T = ('UTC', 'VPA-5', 'VPB5', 'VPC-5:30', 'VPD3:30VPE,M3.2.0,M11.1.0')
 Z_LIKE = ('Z', '.000Z', '.999Z')
 
 
@@ -60,6 +69,8 @@ def build_doc(shape, style):
         conf = [c2] + conf if shape.get('_scd2_first') else conf + [c2]
     a = dict(confirmations=conf, cond=True, cond_nb=shape.get('C_NB'), cond_nooa=shape.get('C_NOOA'),
              session_nooa=shape.get('SESS'), style=style)
+    if 'SESS2' in shape:
+        a['more_authn'] = [shape['SESS2']] + ([shape['SESS3']] if 'SESS3' in shape else [])
     if shape.get('_noaud'):
         a['audiences'] = ()
     return forge.build(T0, resp=dict(style=style), assertions=[a], sign_resp='idpA')
@@ -93,10 +104,14 @@ def cells(thorough):
     for si, (name, shape) in enumerate(shapes(thorough)):
         f = instants(shape, thorough)
         for style in spell:
-            if not thorough and style != 'Z' and not (name.startswith('subset:') and name.count('+') in (1, 4) or name.startswith('wide') or name == 'sess-early' or name.startswith('two-scd')):
+            rich = name.startswith('subset:') and name.count('+') in (1, 4) or name.startswith('wide') or name == 'sess-early' or name.startswith('two-')
+            if not thorough and style != 'Z' and not rich:
                 continue
             for s in slacks:
-                out.append((si, name, style, s, f(s or 0)))
+                for tz in (ZONES_Q if not thorough else ZONES_T):
+                    if tz != 'UTC' and not (rich and style == 'Z' and s in (None, 60) or thorough and style in ('Z', '+01:00')):
+                        continue
+                    out.append((si, name, style, s, f(s or 0), tz))
     return out
 
 
@@ -128,10 +143,13 @@ def judge(shape, style, slack, dt):
         rej = True
     if not (abs(dt) + s + 1 < DAY):
         spare = False
-    profile = style in Z_LIKE and 'SCD_NOOA' in shape and 'SCD_NB' not in shape and 'SCD2_NB' not in shape and not shape.get('_noaud')
+    profile = (style in Z_LIKE and 'SCD_NOOA' in shape and 'SCD_NB' not in shape and 'SCD2_NB' not in shape and not shape.get('_noaud')
+               and 'SESS2' not in shape)
     acc = profile and spare and not rej
     exp = None
-    if 'SESS' in shape:
+    if 'SESS2' in shape:
+        exp = None          # which statement's bound reaches the application is not specified
+    elif 'SESS' in shape:
         exp = env.BASE + shape['SESS']
     elif 'C_NOOA' in shape:
         exp = env.BASE + shape['C_NOOA']
@@ -142,7 +160,18 @@ DOCS = {}
 
 
 def evaluate(cell):
-    si, name, style, slack, dts = cell
+    import os, time
+    os.environ['TZ'] = cell[5]
+    time.tzset()
+    try:
+        return evaluate_in_zone(cell)
+    finally:
+        os.environ['TZ'] = 'UTC'
+        time.tzset()
+
+
+def evaluate_in_zone(cell):
+    si, name, style, slack, dts, _tz = cell
     shape = SHAPES[si][1]
     k = (si, style)
     if k not in DOCS:
@@ -182,7 +211,7 @@ def run(ctx):
     n_acc = 0
     n_must_acc = 0
     n_must_rej = 0
-    for (si, name, style, slack, dts), outs in zip(cs, res):
+    for (si, name, style, slack, dts, tz), outs in zip(cs, res):
         for dt, accept, exc, rej, acc, bad in outs:
             n += 1
             k = 'ACCEPT' if accept else 'REJECT:%s' % exc
@@ -191,7 +220,7 @@ def run(ctx):
             n_must_acc += acc
             n_must_rej += rej
             if rej or acc:
-                nontriv.add((si, style, slack, dt))
+                nontriv.add((si, style, slack, dt, tz))
             if bad:
                 shape = SHAPES[si][1]
                 near = None
@@ -202,7 +231,7 @@ def run(ctx):
                     if abs(dt - e) <= 3600:
                         near = b
                 ctx.violation({'kind': bad.split(':')[0], 'shape': name, 'style': style, 'slack': slack, 'dt': dt,
-                               'near_edge': near}, {'exc': exc, 'shape_offsets': shape})
+                               'near_edge': near, 'tz': tz}, {'exc': exc, 'shape_offsets': shape})
     if n_must_acc and not n_acc:
         ctx.violation({'kind': 'nothing-accepted'}, {})
     i0 = len(cs) // 2
@@ -210,8 +239,8 @@ def run(ctx):
         'level': 'exploration',
         'coverage': {
             'evaluations': n, 'distinct_nontrivial': len(nontriv), 'exhaustive': True,
-            'rule': 'complete grid: %d document shapes (every subset of the five optional bounds; Conditions without any child element; two bearer confirmations with different windows in both orders; session-earlier-than-conditions; wide bounds isolating IssueInstant; NotBefore>NotOnOrAfter inversions) x timestamp spellings x allowance values x placements of now (-2..+2 s around every edge shifted by the allowance, around +-1 day of IssueInstant, far values); non-trivial = cells where the oracle demands a verdict (reject-required or accept-required, 1 s dead zone around each edge)' % len(SHAPES),
-            'samples': [{'cell': list(cs[i0][:4]), 'instants': cs[i0][4][:6], 'outcomes': [list(o) for o in res[i0][:3]]}],
+            'rule': 'complete grid: %d document shapes (every subset of the five optional bounds; Conditions without any child element; two bearer confirmations with different windows in both orders; session-earlier-than-conditions; two and three AuthnStatements with the earliest session bound on a later one; wide bounds isolating IssueInstant; NotBefore>NotOnOrAfter inversions) x timestamp spellings (Z, fractions, no designator, numeric zones incl. half-hour and negative offsets) x allowance values x process time zone (UTC, UTC+5, UTC-5; thorough also +5:30 and a DST zone) x placements of now (-2..+2 s around every edge shifted by the allowance, around +-1 day of IssueInstant, far values); non-trivial = cells where the oracle demands a verdict (reject-required or accept-required, 1 s dead zone around each edge)' % len(SHAPES),
+            'samples': [{'cell': list(cs[i0][:4]) + [cs[i0][5]], 'instants': cs[i0][4][:6], 'outcomes': [list(o) for o in res[i0][:3]]}],
             'accepted': n_acc, 'accept_required_cells': n_must_acc, 'reject_required_cells': n_must_rej,
             'distinct_outcomes': len(hist), 'outcome_histogram': hist,
         },
@@ -224,5 +253,5 @@ def replay(ctx, w):
     TMP[0] = ctx.tmp
     SHAPES[:] = shapes(True)
     si = [i for i, (n, _s) in enumerate(SHAPES) if n == w['shape']][0]
-    out = evaluate((si, w['shape'], w['style'], w['slack'], [w['dt']]))[0]
+    out = evaluate((si, w['shape'], w['style'], w['slack'], [w['dt']], w.get('tz', 'UTC')))[0]
     return {'violation': bool(out[5]), 'observed': out}
